@@ -318,7 +318,8 @@ def case_refusal(ctx, index, rng: random.Random):
     rec.mon("C17.differential")
     kind = rng.choice(["pd_nonnumeric", "pl_nonnumeric", "pl_null", "df_to_h1", "series_to_h", "ragged", "scalar", "pl_df_to_h1", "weights_shape", "dim_mismatch",
                        "pd_df_dim_mismatch", "pl_df_dim_mismatch", "h3_two_columns", "pd_df_nonnumeric", "pl_series_to_h", "weights_pl_df", "weights_pd_df",
-                       "pl_weights_null", "pl_df_null", "pl_df_nonnumeric_selected"])
+                       "pl_weights_null", "pl_df_null", "pl_df_nonnumeric_selected", "list_of_numeric_strings", "array_of_strings", "datetime_array", "timedelta_list",
+                       "nd_strings"])
     raised = False
     try:
         with warnings.catch_warnings():
@@ -349,6 +350,16 @@ def case_refusal(ctx, index, rng: random.Random):
                 physt.h3(pd.DataFrame({"a": [1.0, 2.0, 3.0], "b": [2.0, 3.0, 5.0]}), 2)
             elif kind == "pd_df_nonnumeric":
                 physt.h(pd.DataFrame({"a": [1.0, 2.0, 3.0], "b": ["x", "y", "z"]}), 2)
+            elif kind == "list_of_numeric_strings":
+                physt.h1(["1.5", "2.5", "3.5"], 2)
+            elif kind == "array_of_strings":
+                physt.h1(np.array(["1", "2", "4"]), np.array([0.0, 2.0, 5.0]))
+            elif kind == "datetime_array":
+                physt.h1(np.array(["2020-01-01", "2020-01-03", "2020-02-01"], dtype="datetime64[D]"), 2)
+            elif kind == "timedelta_list":
+                physt.h1([np.timedelta64(1, "s"), np.timedelta64(5, "s"), np.timedelta64(9, "s")], 2)
+            elif kind == "nd_strings":
+                physt.h([["1", "2"], ["3", "4"], ["5", "7"]], 2)
             elif kind == "pl_series_to_h":
                 physt.h(pl.Series("s", [1.0, 2.0, 3.0]), 2)
             elif kind == "weights_pl_df":
@@ -433,6 +444,9 @@ def case_dask(ctx, index, rng: random.Random):
         rec.case(desc, False, cls="dask/raised")
         return
     with attach.quiet():
+        if tuple(got.axis_names) != tuple(ref.axis_names):
+            rec.fail(monitor="C17.differential", op="dask", symptom="axis names of a dask histogram are not those of the histogram of the equivalent array", diff=["axis_names"],
+                     detail={**desc, "got": [str(a_)[:30] for a_ in got.axis_names], "expected": list(ref.axis_names)})
         m0, m1 = snap.interval_map(snap.snapshot(ref)), snap.interval_map(snap.snapshot(got))
         if m0 != m1 or float(ref.total) != float(got.total):
             rec.fail(monitor="C17.differential", op="dask", symptom="dask (chunked) histogram differs from the histogram of the whole array", diff=["frequencies"],
@@ -582,6 +596,11 @@ def geant_case(rec, rng, kind, desc):
             rec.fail(monitor="C17.conversion", op="geant4 2D", symptom="Geant4 2D CSV not read back as written (x index runs fastest)", diff=["conversion"],
                      detail={**desc, "shape": [nx, ny], "written": want.tolist(), "read": f.tolist() if f.shape == want.shape else list(f.shape),
                              "transposed_match": bool(f.shape == want.T.shape and nx * ny > 1 and np.array_equal(f.reshape(-1), want.T.reshape(-1)))})
+        # the border cells of the file are the weight outside the bins: it is the missed weight of the histogram
+        want_missed = float(grid.sum() - grid[1:-1, 1:-1].sum())
+        if h.shape == (nx, ny) and float(h.missed) != want_missed:
+            rec.fail(monitor="C17.conversion", op="geant4 2D", symptom="the under / overflow cells of a Geant4 2D CSV are not kept as missed weight", diff=["missed"],
+                     detail={**desc, "missed": float(h.missed), "expected": want_missed})
         # moment consistency: the mean coordinates of every filled cell lie inside the cell physt assigns to it
         if h.shape == (nx, ny):
             for ix in range(nx):
